@@ -321,7 +321,10 @@ Theorem slice_offset_extent r0 r1 c0 c1 n m :
   let off := slice_offset (SlBox r0 r1 c0 c1) n m in
   array_extent (r1 - r0) (c1 - c0) (fst off) (snd off) = (r0 - ctr n, r1 - 1 - ctr n, c0 - ctr m, c1 - 1 - ctr m).
 Proof. cbv zeta. unfold slice_offset, array_extent, ctr. cbn [fst snd]. cbv zeta.
-  set (d := (r1 - r0) / 2). set (e := (c1 - c0) / 2). clearbody d e. repeat f_equal; lia. Qed.
+  set (d := (r1 - r0) / 2). set (e := (c1 - c0) / 2). clearbody d e.
+  assert (E : forall a b c d a' b' c' d' : Z, a = a' -> b = b' -> c = c' -> d = d' -> (a, b, c, d) = (a', b', c', d'))
+    by (intros; subst; reflexivity).
+  apply E; lia. Qed.
 
 Theorem slice_offset_is_centre r0 r1 c0 c1 n m :
   slice_offset (SlBox r0 r1 c0 c1) n m = (r0 + ctr (r1 - r0) - ctr n, c0 + ctr (c1 - c0) - ctr m).
@@ -339,7 +342,7 @@ Proof.
   destruct ((r0 <=? i) && (i <=? r1 - 1) && ((c0 <=? j) && (j <=? c1 - 1))) eqn:E.
   - replace ((r0 - nr x / 2 <=? i - nr x / 2) && (i - nr x / 2 <=? r1 - 1 - nr x / 2) &&
              ((c0 - nc x / 2 <=? j - nc x / 2) && (j - nc x / 2 <=? c1 - 1 - nc x / 2))) with true by lia.
-    f_equal; lia.
+    cbn [aslice get]. f_equal; lia.
   - replace ((r0 - nr x / 2 <=? i - nr x / 2) && (i - nr x / 2 <=? r1 - 1 - nr x / 2) &&
              ((c0 - nc x / 2 <=? j - nc x / 2) && (j - nc x / 2 <=? c1 - 1 - nc x / 2))) with false by lia.
     reflexivity.
@@ -380,7 +383,10 @@ Lemma boundary_slice_nopad (p : S -> bool) (x : arr S) r0 r1 c0 c1 :
   boundary p x = Ok (r0, r1, c0, c1) -> boundary_slice p x 0 0 = Ok (r0, r1 + 1, c0, c1 + 1).
 Proof.
   intros B. pose proof (boundary_in_range _ _ _ _ _ _ B). unfold boundary_slice. rewrite B.
-  cbn [bslice_of]. repeat f_equal; lia.
+  unfold bslice_of. f_equal.
+  replace (Z.max (r0 - 0) 0) with r0 by lia. replace (Z.min (r1 + 0 + 1) (nr x)) with (r1 + 1) by lia.
+  replace (Z.max (c0 - 0) 0) with c0 by lia. replace (Z.min (c1 + 0 + 1) (nc x)) with (c1 + 1) by lia.
+  reflexivity.
 Qed.
 
 (* ------------------------------------------------------------------ rebin *)
@@ -420,7 +426,7 @@ Proof.
 Qed.
 
 Lemma sumZ_empty_inner n (h : Z -> Z -> S) m : m <= 0 -> sumZ n (fun i => sumZ m (h i)) = k0.
-Proof. intros H. apply (sumZ_zero_ext S Sring). intros i _. apply (sumZ_nonpos S Sring). assumption. Qed.
+Proof. intros H. apply (sumZ_zero_ext S Sring). intros i _. apply (sumZ_nonpos S). assumption. Qed.
 
 Theorem rebin2_sum (a : arr S) f b : 0 <= nr a -> 0 <= nc a -> rebin2 a f = Ok b ->
   0 < f /\ nr b = nr a / f /\ nc b = nc a / f /\ asum b = asum a.
@@ -435,10 +441,8 @@ Proof.
   destruct (Z.eq_dec (nc a) 0) as [E1|E1].
   { rewrite E1. rewrite Z.div_0_l by lia. rewrite !sumZ_empty_inner by lia. reflexivity. }
   destruct (reshape_ok_div (nr a) (nc a) f) as [D1 D2]; try lia; try assumption.
-  rewrite rebin_total; try lia.
-  - rewrite D1, D2. reflexivity.
-  - apply Z.div_pos; lia.
-  - apply Z.div_pos; lia.
+  assert (0 <= nr a / f) by (apply Z.div_pos; lia). assert (0 <= nc a / f) by (apply Z.div_pos; lia).
+  rewrite rebin_total by lia. rewrite D1, D2. reflexivity.
 Qed.
 
 (* divisible sizes are accepted, anything else (positive sizes) is refused like numpy's reshape *)
@@ -456,6 +460,18 @@ Proof.
     split; [rewrite <- D1 | rewrite <- D2]; apply Z_mod_mult.
 Qed.
 
+(* a double sum of a function supported on one sample *)
+Lemma sum2_delta n m i0 j0 (h : Z -> Z -> S) : 0 <= i0 < n -> 0 <= j0 < m ->
+  sumZ n (fun i => sumZ m (fun j => if (i =? i0) && (j =? j0) then h i j else k0)) = h i0 j0.
+Proof.
+  intros Hi Hj.
+  rewrite (sumZ_ext S n _ (fun i => if i =? i0 then h i j0 else k0)).
+  - apply (sumZ_delta S Sring n i0 (fun i => h i j0)). assumption.
+  - intros i _. destruct (i =? i0); cbn [andb].
+    + apply (sumZ_delta S Sring m j0 (h i)). assumption.
+    + apply (sumZ_zero S Sring).
+Qed.
+
 Theorem rebin3_sum (c : cube S) f b : 0 <= cr c -> 0 <= cc c -> rebin3 c f = Ok b ->
   0 < f /\ cd b = cd c /\ cr b = cr c / f /\ cc b = cc c / f /\
   (forall k, 0 <= k < cd c -> asum (cslice b k) = asum (cslice c k)) /\ csum b = csum c.
@@ -468,11 +484,41 @@ Proof.
      asum (cslice (mkCube (cd c) (cr c / f) (cc c / f) (fun k0 => rebin_get f (cget c k0))) k) = asum (cslice c k)).
   { intros k Hk. replace (0 <? cd c) with true in Er by lia. cbn [andb] in Er.
     destruct (reshape_ok (cr c) (cc c) f) eqn:E; [|discriminate].
-    pose proof (rebin2_sum (cslice c k) f (mkArr (cr c / f) (cc c / f) (rebin_get f (cget c k)))) as R.
-    cbn [cslice nr nc get] in R. unfold rebin2 in R. cbn [nr nc get] in R.
-    rewrite Ef, E in R. cbn [negb] in R. specialize (R Hn Hm eq_refl). apply R. }
+    unfold cslice. cbn [cr cc cget].
+    pose proof (rebin2_sum (mkArr (cr c) (cc c) (cget c k)) f (mkArr (cr c / f) (cc c / f) (rebin_get f (cget c k)))) as R.
+    unfold rebin2 in R. cbn [nr nc get] in R.
+    rewrite Ef, E in R. cbn [negb] in R. apply (R Hn Hm eq_refl). }
   repeat split; try lia; try assumption.
   unfold csum. cbn [cd]. apply sumZ_ext. assumption.
 Qed.
 
 End GeometryP.
+
+(* ------------------------------------------------------------------ centroid (rationals) *)
+Lemma QS_ring : is_ring QS. Proof. exact Qcrt. Qed.
+
+Theorem centroid_impulse (a : arr QS) i0 j0 (v : Qc) :
+  0 <= i0 < nr a -> 0 <= j0 < nc a -> v <> 0%Qc ->
+  (forall i j, 0 <= i < nr a -> 0 <= j < nc a -> get a i j = if (i =? i0) && (j =? j0) then v else 0%Qc) ->
+  centroid a = (zq i0, zq j0).
+Proof.
+  intros Hi Hj Hv Ha. unfold centroid.
+  assert (T : asum a = v).
+  { unfold asum.
+    rewrite (sumZ_ext QS (nr a) _ (fun i => @sumZ QS (nc a) (fun j => if (i =? i0) && (j =? j0) then v else @k0 QS))).
+    - apply (sum2_delta QS QS_ring (nr a) (nc a) i0 j0 (fun _ _ => v)); assumption.
+    - intros i Hi'. apply sumZ_ext. intros j Hj'. apply Ha; assumption. }
+  rewrite T.
+  assert (D : forall w : Qc, (w * (v / v) = w)%Qc).
+  { intros w. unfold Qcdiv. rewrite Qcmult_inv_r by assumption. ring. }
+  assert (Z0 : forall w : Qc, (w * (0 / v) = 0)%Qc) by (intros w; unfold Qcdiv; ring).
+  f_equal.
+  - rewrite (sumZ_ext QS (nr a) _ (fun i => @sumZ QS (nc a) (fun j => if (i =? i0) && (j =? j0) then zq i else @k0 QS))).
+    + apply (sum2_delta QS QS_ring (nr a) (nc a) i0 j0 (fun i _ => zq i)); assumption.
+    + intros i Hi'. apply sumZ_ext. intros j Hj'. rewrite Ha by assumption.
+      destruct ((i =? i0) && (j =? j0)); [apply D | apply Z0].
+  - rewrite (sumZ_ext QS (nr a) _ (fun i => @sumZ QS (nc a) (fun j => if (i =? i0) && (j =? j0) then zq j else @k0 QS))).
+    + apply (sum2_delta QS QS_ring (nr a) (nc a) i0 j0 (fun _ j => zq j)); assumption.
+    + intros i Hi'. apply sumZ_ext. intros j Hj'. rewrite Ha by assumption.
+      destruct ((i =? i0) && (j =? j0)); [apply D | apply Z0].
+Qed.
